@@ -8,3 +8,5 @@ package verifhook
 func Emit(name string, args ...int) {}
 
 func Point(name string) {}
+
+func ErrClass(err, incorrect error) int { return 0 }
